@@ -23,6 +23,28 @@ for line in p.stdout.splitlines():
     if e.get("Test") and e.get("Action") in ("pass", "fail", "skip"):
         res[e["Package"] + "::" + e["Test"]] = e["Action"]
 bad = [t for t in sorted(stable) if t.split("::")[0] in pkgs and res.get(t) != "pass"]
+# wall-clock tests (TestPathological) fail under load: re-run what failed, alone, before believing it
+still = []
+for t in bad:
+    pkg, name = t.split("::")
+    top = name.split("/")[0]
+    ok = False
+    for _ in range(2):
+        r = subprocess.run(["go", "test", "-json", "-vet=off", "-count=1", "-run", "^" + top + "$", pkg], cwd=d, env=env, stdout=subprocess.PIPE, stderr=subprocess.DEVNULL, text=True)
+        got = {}
+        for line in r.stdout.splitlines():
+            try:
+                e = json.loads(line)
+            except Exception:
+                continue
+            if e.get("Test") and e.get("Action") in ("pass", "fail", "skip"):
+                got[e["Package"] + "::" + e["Test"]] = e["Action"]
+        if got.get(t) == "pass":
+            ok = True
+            break
+    if not ok:
+        still.append(t)
+bad = still
 print("packages run: %d, stable_pass tests in them: %d, not passing: %d" % (len(pkgs), sum(1 for t in stable if t.split("::")[0] in pkgs), len(bad)))
 for t in bad[:20]:
     print("  NOT PASSING:", t, res.get(t))
